@@ -32,7 +32,7 @@ def file_content(gen):
     rng = seeds.Rng(seeds.derive('file', world, gen['seed']))
     if world == 'bit':
         from worlds import bit
-        model = bit.gen_model(rng, max_passes=gen.get('passes', 3), max_frames=gen.get('frames', 40), names_pool=gen.get('names'))
+        model = bit.gen_model(rng, max_passes=gen.get('passes', 3), max_frames=gen.get('frames', 40), names_pool=gen.get('names'), long=gen.get('long', False))
         by, layout = bit.build(model)
         return by, layout['fields'], {'model': model, 'layout': layout}
     if world == 'dlis':
@@ -251,7 +251,7 @@ class BatchRun:
 
     def run(self, name, run, alone=None):
         spec = {'root': self.root, 'name': name, 'run': run, 'scenario': self.scenario, 'budget': self.budget,
-                'n_files': len(self.inputs), 'alone': alone}
+                'n_files': len(self.inputs), 'alone': alone, 'env': self.scenario.get('env')}
         res = self.runner.exec_in_child(_run_in_child, spec, timeout=100.0)
         if 'harness_error' in res:
             raise RuntimeError('batch run failed in the harness: ' + res['harness_error'])
